@@ -16,71 +16,83 @@ open Scrut.Update (unlines backticks Clean splitLines_unlines)
 
 /-! ### `generate_testcase_expression` on a command given by its lines -/
 
-theorem splitAuxC_line (l t : List Char) (hnl : '\n' ∉ l) :
-    ∀ cur, splitAuxC (l ++ '\n' :: t) cur = (cur ++ l ++ ['\n']) :: splitAuxC t [] := by
+theorem splitNl_line (l t : List Char) (hnl : '\n' ∉ l) :
+    ∀ cur, splitNl (l ++ '\n' :: t) cur = (cur ++ l) :: splitNl t [] := by
   induction l with
-  | nil => intro cur; simp [splitAuxC]
+  | nil => intro cur; simp [splitNl]
   | cons c r ih =>
     intro cur
     have hc : c ≠ '\n' := fun h => hnl (by simp [h])
     have hr : '\n' ∉ r := fun h => hnl (by simp [h])
-    simp only [List.cons_append, splitAuxC, hc, if_false]
+    simp only [List.cons_append, splitNl, hc, if_false]
     rw [ih hr]
     simp
 
-theorem splitAuxC_last (l : List Char) (hnl : '\n' ∉ l) :
-    ∀ cur, splitAuxC l cur = if (cur ++ l).isEmpty then [] else [cur ++ l] := by
+theorem splitNl_last (l : List Char) (hnl : '\n' ∉ l) : ∀ cur, splitNl l cur = [cur ++ l] := by
   induction l with
-  | nil => intro cur; simp [splitAuxC]
+  | nil => intro cur; simp [splitNl]
   | cons c r ih =>
     intro cur
     have hc : c ≠ '\n' := fun h => hnl (by simp [h])
     have hr : '\n' ∉ r := fun h => hnl (by simp [h])
-    simp only [splitAuxC, hc, if_false]
+    simp only [splitNl, hc, if_false]
     rw [ih hr]
     simp
 
-/-- the lines of a command: no line feed inside a line, the last line is not empty -/
-def CmdLines (ls : List (List Char)) : Prop :=
-  (∀ l ∈ ls, '\n' ∉ l) ∧ ∃ init last, ls = init ++ [last] ∧ last ≠ []
+/-- `str::split('\n')` returns at least one piece -/
+theorem splitNl_ne_nil : ∀ (cmd cur : List Char), splitNl cmd cur ≠ []
+  | [], _ => by simp [splitNl]
+  | c :: rest, cur => by
+    unfold splitNl
+    split
+    · simp
+    · exact splitNl_ne_nil rest _
 
-theorem splitAtNewlineC_joinNl : ∀ (ls : List (List Char)), CmdLines ls →
-    ∃ init last, ls = init ++ [last] ∧ splitAtNewlineC (Gen.joinNl ls) = init.map (· ++ ['\n']) ++ [last]
-  | [], h => by obtain ⟨_, i, l, h, _⟩ := h; simp at h
-  | [l], h => by
-    obtain ⟨hnl, i, l', he, hne⟩ := h
-    have : i = [] ∧ l' = l := by
-      cases i with
-      | nil => simpa using he.symm
-      | cons a r => have := congrArg List.length he; simp at this
-    obtain ⟨rfl, rfl⟩ := this
-    refine ⟨[], l', rfl, ?_⟩
-    simp only [Gen.joinNl, splitAtNewlineC]
-    rw [splitAuxC_last l' (hnl l' (by simp)) []]
-    simp [hne]
-  | l :: l2 :: rest, h => by
-    obtain ⟨hnl, i, l', he, hne⟩ := h
-    have hi : ∃ i', i = l :: i' ∧ l2 :: rest = i' ++ [l'] := by
-      cases i with
-      | nil => have := congrArg List.length he; simp at this
-      | cons a r =>
-        have h1 := (List.cons.inj he).1
-        have h2 := (List.cons.inj he).2
-        exact ⟨r, by rw [h1], h2⟩
-    obtain ⟨i', rfl, he'⟩ := hi
-    obtain ⟨i2, l2', he2, hs⟩ := splitAtNewlineC_joinNl (l2 :: rest)
-      ⟨fun x hx => hnl x (by simp [hx]), i', l', he', hne⟩
-    have hil : i2 = i' ∧ l2' = l' := by
-      have := he'.symm.trans he2
-      exact ⟨(List.append_inj' this rfl).1.symm ▸ rfl, by simpa using (List.append_inj' this rfl).2.symm⟩
-    obtain ⟨rfl, rfl⟩ := hil
-    refine ⟨l :: i2, l2', by rw [he2]; rfl, ?_⟩
-    simp only [Gen.joinNl, splitAtNewlineC]
-    rw [splitAuxC_line l _ (hnl l (by simp)) []]
-    unfold splitAtNewlineC at hs
-    rw [hs]
+/-- no piece holds a line feed -/
+theorem splitNl_no_nl : ∀ (cmd cur : List Char), '\n' ∉ cur → ∀ l ∈ splitNl cmd cur, '\n' ∉ l
+  | [], cur, h, l, hl => by
+    simp only [splitNl, List.mem_singleton] at hl
+    subst hl; exact h
+  | c :: rest, cur, h, l, hl => by
+    unfold splitNl at hl
+    split at hl
+    · rcases List.mem_cons.mp hl with rfl | hl
+      · exact h
+      · exact splitNl_no_nl rest [] (by simp) l hl
+    · rename_i hc
+      refine splitNl_no_nl rest (cur ++ [c]) ?_ l hl
+      intro hm
+      rcases List.mem_append.mp hm with hm | hm
+      · exact h hm
+      · have : '\n' = c := by simpa using hm
+        exact hc this.symm
+
+/-- the pieces, joined with line feeds, are the text: `split('\n')` loses nothing -/
+theorem joinNl_splitNl : ∀ (cmd cur : List Char), Gen.joinNl (splitNl cmd cur) = cur ++ cmd
+  | [], cur => by simp [splitNl, Gen.joinNl]
+  | c :: rest, cur => by
+    unfold splitNl
+    split
+    · rename_i hc
+      have ih := joinNl_splitNl rest []
+      cases hs : splitNl rest [] with
+      | nil => exact absurd hs (splitNl_ne_nil rest [])
+      | cons a b =>
+        rw [hs] at ih
+        simp only [Gen.joinNl, ih, hc, List.nil_append]
+    · rw [joinNl_splitNl rest (cur ++ [c])]; simp
+
+/-- … and lines without line feed, joined, are split into themselves -/
+theorem splitNl_joinNl : ∀ (ls : List (List Char)), ls ≠ [] → (∀ l ∈ ls, '\n' ∉ l) →
+    splitNl (Gen.joinNl ls) [] = ls
+  | [], h, _ => absurd rfl h
+  | [l], _, hnl => by
+    simp only [Gen.joinNl]
+    rw [splitNl_last l (hnl l (by simp)) []]; simp
+  | l :: l2 :: rest, _, hnl => by
+    simp only [Gen.joinNl]
+    rw [splitNl_line l _ (hnl l (by simp)) [], splitNl_joinNl (l2 :: rest) (by simp) (fun x hx => hnl x (by simp [hx]))]
     simp
-
 
 theorem assureNewlineC_nl (l : List Char) : assureNewlineC (l ++ ['\n']) = l ++ ['\n'] := by
   simp [assureNewlineC]
@@ -93,33 +105,26 @@ theorem assureNewlineC_plain (l : List Char) (h : '\n' ∉ l) : assureNewlineC l
     exact h (List.mem_of_getLast? hl')
   simp [this]
 
-theorem flatMap_cont (init : List (List Char)) (last : List Char) (hl : '\n' ∉ last) :
-    (init.map (· ++ ['\n']) ++ [last]).flatMap (fun l => '>' :: ' ' :: assureNewlineC l)
-      = ((init ++ [last]).map (fun x => '>' :: ' ' :: x)).flatMap (· ++ ['\n']) := by
-  induction init with
-  | nil => simp [assureNewlineC_plain last hl]
-  | cons a r ih =>
-    simp only [List.map_cons, List.cons_append, List.flatMap_cons, ih, assureNewlineC_nl]
-
-/-- **`generate_testcase_expression`**: `$ ` + first line, `> ` + every further line -/
-theorem expression_lines (c0 : List Char) (more : List (List Char)) (h : CmdLines (c0 :: more)) :
-    expression (Gen.joinNl (c0 :: more))
-      = some (unlines (('$' :: ' ' :: c0) :: more.map (fun x => '>' :: ' ' :: x))) := by
-  obtain ⟨init, last, he, hs⟩ := splitAtNewlineC_joinNl _ h
-  have hl : '\n' ∉ last := h.1 last (by rw [he]; simp)
+/-- **`generate_testcase_expression`**, any command: `$ ` + first piece, `> ` + every further piece of
+`split('\n')` -- no panic -/
+theorem expression_split (cmd c0 : List Char) (more : List (List Char)) (h : splitNl cmd [] = c0 :: more) :
+    expression cmd = some (unlines (('$' :: ' ' :: c0) :: more.map (fun x => '>' :: ' ' :: x))) := by
   unfold expression
-  rw [hs]
-  cases init with
-  | nil =>
-    have : c0 = last ∧ more = [] := by simpa using he
-    obtain ⟨rfl, rfl⟩ := this
-    simp [unlines, assureNewlineC_plain c0 hl]
-  | cons i0 i' =>
-    have : c0 = i0 ∧ more = i' ++ [last] := by simpa using he
-    obtain ⟨rfl, rfl⟩ := this
-    simp only [List.map_cons, List.cons_append, List.nil_append, List.singleton_append]
-    rw [flatMap_cont i' last hl, assureNewlineC_nl]
-    simp [unlines]
+  rw [h]
+  simp [unlines, List.flatMap_map]
+
+/-- `generate_testcase_expression` never panics -/
+theorem expression_isSome (cmd : List Char) : ∃ ex, expression cmd = some ex := by
+  cases h : splitNl cmd [] with
+  | nil => exact absurd h (splitNl_ne_nil cmd [])
+  | cons c0 more => exact ⟨_, expression_split cmd c0 more h⟩
+
+/-- `generate_testcase_expression` on a command given by its lines (any lines without line feed: the
+last one may be empty, the only one too) -/
+theorem expression_lines (c0 : List Char) (more : List (List Char)) (h : ∀ l ∈ c0 :: more, '\n' ∉ l) :
+    expression (Gen.joinNl (c0 :: more))
+      = some (unlines (('$' :: ' ' :: c0) :: more.map (fun x => '>' :: ' ' :: x))) :=
+  expression_split _ c0 more (splitNl_joinNl (c0 :: more) (by simp) h)
 
 
 /-! ### the document as a list of lines -/
@@ -462,7 +467,7 @@ theorem create_markdown_end_to_end {P : Grammar.Params} (hP : StdParams P) (m : 
     (hC : m = .unicode → AsciiContract isOther) (env : Env) (hlang : env.languages = [language])
     (hcfg : ∀ cfg c, cfgInner cfg = some c → env.testCfgOk c = true)
     (hexp : ∀ t e, Grammar.parse P t = .ok e → env.expOk t = true)
-    (cfg : ConfigDiff) (c0 : Line) (more : List Line) (hlines : CmdLines (c0 :: more))
+    (cfg : ConfigDiff) (c0 : Line) (more : List Line) (hlines : ∀ l ∈ c0 :: more, '\n' ∉ l)
     (hcr : ∀ l ∈ c0 :: more, l.getLast? ≠ some '\r')
     (out : List UInt8) (code : Int) (h0 : 0 ≤ code) (h1 : code ≤ 255) :
     ∃ doc ts, create .markdown m isOther cfg (Gen.joinNl (c0 :: more)) out code = some doc ∧
@@ -493,9 +498,41 @@ theorem create_markdown_end_to_end {P : Grammar.Params} (hP : StdParams P) (m : 
     obtain ⟨e, he, _⟩ := hok.parses
     exact ⟨hok.no_nl, hok.no_cr, hok.no_lead, hok.no_exit, hexp _ e he⟩
   refine ⟨_, ts, ?_, hlen, hget, create_markdown_parses env hlang hcfg cfg c0 more ts
-    (fun l hl => ⟨hlines.1 l hl, hcr l hl⟩) htsok code h0 h1⟩
+    (fun l hl => ⟨hlines l hl, hcr l hl⟩) htsok code h0 h1⟩
   unfold create
   rw [generateTestcase_create m isOther _ _ out code hex, hts]
   rfl
+
+/-- the same for a command given as its text: ANY text (the empty one, one that ends in line feeds); the
+command lines read back are the pieces of `split('\n')`, whose `join("\n")` is the text (`joinNl_splitNl`).
+What remains is the carriage return that `str::lines()` strips from the end of a line. -/
+theorem create_markdown_end_to_end_cmd {P : Grammar.Params} (hP : StdParams P) (m : Esc.Mode) (isOther : Char → Bool)
+    (hC : m = .unicode → AsciiContract isOther) (env : Env) (hlang : env.languages = [language])
+    (hcfg : ∀ cfg c, cfgInner cfg = some c → env.testCfgOk c = true)
+    (hexp : ∀ t e, Grammar.parse P t = .ok e → env.expOk t = true)
+    (cfg : ConfigDiff) (cmd : List Char) (hcr : ∀ l ∈ splitNl cmd [], l.getLast? ≠ some '\r')
+    (out : List UInt8) (code : Int) (h0 : 0 ≤ code) (h1 : code ≤ 255) :
+    ∃ doc ts, create .markdown m isOther cfg cmd out code = some doc ∧
+      ts.length = (Newline.splitAtNewline out).length ∧
+      (∀ i (h : i < (Newline.splitAtNewline out).length),
+        expectationLine m isOther (Newline.splitAtNewline out)[i] = ts[i]?) ∧
+      parseMarkdown env doc
+        = .ok { docConfigs := []
+                tests := [{ title := []
+                            command := splitNl cmd []
+                            exitCode := if code ≠ 0 then some code.toNat else none
+                            expectations := ts
+                            lineNumber := 2
+                            config := some (cfgInner cfg) }] } := by
+  cases hs : splitNl cmd [] with
+  | nil => exact absurd hs (splitNl_ne_nil cmd [])
+  | cons c0 more =>
+    have hnl := splitNl_no_nl cmd [] (by simp)
+    rw [hs] at hnl hcr
+    have hj := joinNl_splitNl cmd []
+    rw [hs, List.nil_append] at hj
+    have := create_markdown_end_to_end hP m isOther hC env hlang hcfg hexp cfg c0 more hnl hcr out code h0 h1
+    rw [hj] at this
+    exact this
 
 end Scrut.GenLemmas
